@@ -180,7 +180,10 @@ CHECKS = {
               "dump unchanged — induction over operation lists), witness of the shared-nested leak; same machine/correspondence as C06; "
               "oracle: behaviour of G with F defined/configured/exercised == behaviour of G alone (forked children), all orders, "
               "three-family histories ordered by first use (unrelated bystander used last, late binds), families sharing only the "
-              "identity of a configuration object (one key-mapping constant / one LoadMeta object)"),
+              "identity of a configuration object (one key-mapping constant / one LoadMeta object), three-to-six-family histories around one "
+              "Meta-less nested class first reached through a bare / non-recursive / recursively dump- or load-configured root or alone, "
+              "unrelated bystander families first used at every point of a uniformly drawn first-use order (oracle and cache-machine "
+              "correspondence)"),
         technique='Lean 4 proof over a hand state machine + forked-history correspondence + isolation oracle', ref='4 C07'),
     'C08': dict(
         text=("Lean theorems: split_object_path parses what a token list prints (parse/print round trip by induction with a tokenizer "
